@@ -1269,6 +1269,27 @@ fn directed_constructors() -> Vec<String> {
         m.set_signature(Box::new(make_tsig_record(nm("Key.Example."), t)));
         out.push(m);
     }
+    // seeded change C02-r4-2 (missed by both tiers as first evaluated: no generator left the opcodes
+    // Query / Update): every 4-bit opcode (0..=15, twelve of them `OpCode::Unknown`) x both message types
+    // x header flag patterns x the 4-bit response codes, with and without a question
+    for op in 0u8..16 {
+        for (j, mt) in [MessageType::Query, MessageType::Response].into_iter().enumerate() {
+            for flags in [0u8, 0b010101, 0b101010, 0b011111, 0b100000, 0b111111] {
+                let mut m = Message::new(0x7200 + ((op as u16) << 6) + flags as u16, mt, OpCode::from_u8(op));
+                m.metadata.authoritative = flags & 1 != 0;
+                m.metadata.truncation = flags & 2 != 0;
+                m.metadata.recursion_desired = flags & 4 != 0;
+                m.metadata.recursion_available = flags & 8 != 0;
+                m.metadata.authentic_data = flags & 16 != 0;
+                m.metadata.checking_disabled = flags & 32 != 0;
+                m.metadata.response_code = ResponseCode::from(0, (op * 3 + flags) % 16);
+                if (op as usize + j) % 2 == 0 {
+                    m.add_query(Query::new(nm("example."), RecordType::A));
+                }
+                out.push(m);
+            }
+        }
+    }
     let _ = (NS(Name::root()), DNSClass::IN, MessageType::Query);
     let mut v = vec![];
     for m in out {
